@@ -89,7 +89,7 @@ func writeOut(path string, fl *vh.File) {
 	}
 }
 
-func convert(ctx string, to string, drop int) string {
+func convert(ctx string, to string, drop int, failMsg string) string {
 	var arr []map[string]any
 	if err := json.Unmarshal([]byte(ctx), &arr); err != nil || len(arr) == 0 {
 		return ""
@@ -110,7 +110,11 @@ func convert(ctx string, to string, drop int) string {
 		drop = len(out)
 	}
 	out = out[:len(out)-drop]
-	b, _ := json.Marshal(map[string]any{"convertedObjects": out})
+	resp := map[string]any{"convertedObjects": out}
+	if failMsg != "" {
+		resp["failedMessage"] = failMsg
+	}
+	b, _ := json.Marshal(resp)
 	return string(b)
 }
 
@@ -194,7 +198,17 @@ func main() {
 	writeOut(os.Getenv("ADMISSION_RESPONSE_PATH"), do.Admission)
 	writeOut(os.Getenv("CONVERSION_RESPONSE_PATH"), do.Conversion)
 	if do.ConvertTo != "" {
-		writeOut(os.Getenv("CONVERSION_RESPONSE_PATH"), &vh.File{Content: convert(string(ctxBytes), do.ConvertTo, do.ConvertDrop)})
+		writeOut(os.Getenv("CONVERSION_RESPONSE_PATH"), &vh.File{Content: convert(string(ctxBytes), do.ConvertTo, do.ConvertDrop, do.ConvertFailMsg)})
+	}
+	if do.PostGate != "" {
+		appendLog(root, vh.Record{Hook: rel, Phase: "written", Seq: seq, Pid: os.Getpid(), T: time.Now().UnixNano(), Rule: idx})
+		gp := filepath.Join(root, ".vhook", "gates", do.PostGate)
+		for {
+			if _, err := os.Stat(gp); err == nil {
+				break
+			}
+			time.Sleep(time.Millisecond)
+		}
 	}
 	end := vh.Record{Hook: rel, Phase: "end", Seq: seq, Pid: os.Getpid(), T: time.Now().UnixNano(), Rule: idx, Exit: do.Exit}
 	appendLog(root, end)
